@@ -28,12 +28,14 @@ macro_rules! harness_table_should_panic {
 
 #[cfg(feature = "core")]
 pub mod bitseq;
+#[cfg(feature = "core")]
+pub mod ring;
 
 /// (table, should_panic) for the native runner
 #[cfg(not(kani))]
 pub fn all_tables() -> Vec<(&'static [(&'static str, fn(&mut src::Src) -> src::R)], bool)> {
     let mut v: Vec<(&'static [(&'static str, fn(&mut src::Src) -> src::R)], bool)> = vec![];
     #[cfg(feature = "core")]
-    { v.push((bitseq::BITSEQ, false)); v.push((bitseq::BITSEQ_REJECT, true)); }
+    { v.push((bitseq::BITSEQ, false)); v.push((bitseq::BITSEQ_REJECT, true)); v.push((ring::RING, false)); }
     v
 }
